@@ -1,4 +1,5 @@
 import Sml.Props.C14
+import Sml.Props.C05Vec
 #print axioms Sml.C14.boundary_cases
 #print axioms Sml.C14.equiv_bisim
 #print axioms Sml.C14.equiv_run
@@ -11,3 +12,8 @@ import Sml.Props.C14
 #print axioms Sml.C14.step_fromBuf
 #print axioms Sml.C14.new_restarts
 #print axioms Sml.C14.fromBuf_restarts
+#print axioms Sml.C14.oom_leaves_fresh
+#print axioms Sml.C14.boundary_equiv_fresh_fallible
+#print axioms Sml.C14.oom_then_as_new
+#print axioms Sml.C14.boundary_fresh_fallible
+#print axioms Sml.C14.recovers
